@@ -138,7 +138,7 @@ def rq(fr):
 
 
 def native_unit_table(replayer):
-    """run the real crate on every ordered pair of units (amounts 1 and 7.5); returns {(a,b,amount): float|None}"""
+    """run the real crate on every ordered pair of units (amounts 0, 1, 7.5 and 3e19 - beyond the 64-bit integers); returns {(a,b,amount): float|None}"""
     rec = replayer.replay("d_dump_units", [], release=False, raw=True)
     table = {}
     for line in (rec.get("output") or "").splitlines():
@@ -228,7 +228,7 @@ def check_units(tier, only):
     disagreements, checked = [], 0
     for (a, b), r in fac.items():
         # @comma: the default configuration (',' decimal separator); @switched: one calculator used under '.' decimal first, then switched to ','
-        for amount in ("0", "1", "7.5", "0@comma", "1@comma", "7.5@comma", "1@switched", "7.5@switched"):
+        for amount in ("0", "1", "7.5", "30000000000000000000", "0@comma", "1@comma", "7.5@comma", "30000000000000000000@comma", "1@switched", "7.5@switched", "30000000000000000000@switched"):
             got = table.get((a, b, amount), "missing")
             if got == "missing":
                 continue
